@@ -252,6 +252,15 @@ func genRaw(out *vc.Out, r *vc.Rand, thorough bool) {
 			emitRaw(out, append(frame(t, z), 0x03), []int{5, 100}, false, "gzip-bomb")
 		}
 	}
+	// bombs whose inflated content is shaped like what each type's decoder expects (one huge JSON string)
+	for _, n := range []int{maxBody + 1, 8 * maxBody} {
+		j := append([]byte(`{"CommandType":10,"CommandId":"x","CommandBody":"`), bytes.Repeat([]byte("a"), n)...)
+		j = append(j, []byte(`"}`)...)
+		z := gz(j)
+		for _, t := range []int{0x50, 0x51, 0x41, 0x60, 0x62} {
+			emitRaw(out, append(frame(t, z), 0x03), []int{7, 4096}, false, "gzip-bomb-json")
+		}
+	}
 	// nested/concatenated members
 	z := append(gz(make([]byte, maxBody/2+1)), gz(make([]byte, maxBody/2+1))...)
 	emitRaw(out, frame(0x62, z), nil, false, "gzip-multi-member")
